@@ -459,10 +459,8 @@ def run(ctx):
     else:
         plans = [(AXES_QUICK[:4], alphabet(True), 4), (AXES_THOROUGH, alphabet(False), 3)]
     base_axes = AXES_QUICK if ctx.quick else AXES_THOROUGH
-    # (an axis rebuilt from an axis re-derives its interval from the float64 rate: exact only below 2^50 ps — C02's finding)
     def derived(axes):
-        return [ax + (how,) for ax in axes for how in DERIVE
-                if not (how == "from_axis" and ax[2] * FACT[ax[0]] >= 2 ** 50)]
+        return [ax + (how,) for ax in axes for how in DERIVE]
     if ctx.quick:
         plans.append((derived(AXES_QUICK[::2]), alphabet(True), 2))
     else:
